@@ -1,6 +1,7 @@
 /- Axiom audit of C03 (no-bias fixed point): every property theorem, the lemmas it rests on that are general facts
    about the numeric toolkit, and the tier-A obligations `Gen = Model` of the two translated window functions. -/
 import IbicusModel.Props.C03
+import IbicusModel.Lemmas.GenDebWin
 -- property theorems (per window)
 #print axioms Props.C03.ls_add_fixed_point
 #print axioms Props.C03.ls_mult_fixed_point
@@ -52,3 +53,31 @@ import IbicusModel.Props.C03
 -- tier A: regenerated kernels = model
 #print axioms Lemmas.GenDebiasers.ls_apply_on_window
 #print axioms Lemmas.GenDebiasers.dc_apply_on_within_year_window
+-- tier A: the dataflow of the per-window transfer functions regenerated from /repo (Gen.DebWin) = expected program, and its denotation = Model.Debiasers
+#print axioms Lemmas.GenDebWin.gen_cdft_apply_CDFt_mapping
+#print axioms Lemmas.GenDebWin.gen_ecdfm_apply_on_window
+#print axioms Lemmas.GenDebWin.gen_qdm_apply_debiasing_steps
+#print axioms Lemmas.GenDebWin.gen_qdm_get_obs_and_cm_hist_fits
+#print axioms Lemmas.GenDebWin.gen_qm_standard_qm
+#print axioms Lemmas.GenDebWin.gen_qm_apply_on_window
+#print axioms Lemmas.GenDebWin.gen_sdm_apply_on_window_absolute_sdm
+#print axioms Lemmas.GenDebWin.gen_cdft_apply_debiasing_steps
+#print axioms Lemmas.GenDebWin.gen_sdm_apply_on_window_relative_sdm
+#print axioms Lemmas.GenDebWin.cdft_mapping_denote
+#print axioms Lemmas.GenDebWin.cdft_mapping_denote_methods
+#print axioms Lemmas.GenDebWin.cdft_bad_delta_shift
+#print axioms Lemmas.GenDebWin.ecdfm_denote
+#print axioms Lemmas.GenDebWin.qdm_denote
+#print axioms Lemmas.GenDebWin.qdm_fits_denote
+#print axioms Lemmas.GenDebWin.qdm_window_denote
+#print axioms Lemmas.GenDebWin.qdm_bad_trend_preservation
+#print axioms Lemmas.GenDebWin.qm_standard_param_denote
+#print axioms Lemmas.GenDebWin.qm_standard_nonparam_denote
+#print axioms Lemmas.GenDebWin.qm_param_denote
+#print axioms Lemmas.GenDebWin.qm_nonparam_denote
+#print axioms Lemmas.GenDebWin.qm_bad_detrending
+#print axioms Lemmas.GenDebWin.qm_bad_mapping_type
+#print axioms Lemmas.GenDebWin.sdm_abs_core
+#print axioms Lemmas.GenDebWin.sdm_absolute_denote
+#print axioms Lemmas.GenDebWin.cdft_steps_denote
+#print axioms Lemmas.GenDebWin.cdft_steps_denote_methods
